@@ -21,11 +21,13 @@ pub struct C03<K: SimKernel<D>, const D: usize> {
     /// faulted-and-failed clones kept alive; each must behave like the untouched original
     twins: Vec<(Dt<K, D>, usize, String)>,
     max_twins: usize,
+    /// clone of the target object taken before the current step (it never makes the call)
+    pre_clone: Option<Dt<K, D>>,
 }
 
 impl<K: SimKernel<D>, const D: usize> C03<K, D> {
     pub fn new(thorough: bool) -> Self {
-        Self { max_single: if thorough { 400 } else { 96 }, max_pairs: if thorough { 24 } else { 6 }, max_kernel: if thorough { 160 } else { 40 }, twins: Vec::new(), max_twins: if thorough { 4 } else { 3 } }
+        Self { max_single: if thorough { 400 } else { 96 }, max_pairs: if thorough { 24 } else { 6 }, max_kernel: if thorough { 160 } else { 40 }, twins: Vec::new(), max_twins: if thorough { 4 } else { 3 }, pre_clone: None }
     }
 }
 
@@ -95,6 +97,7 @@ impl<K: SimKernel<D>, const D: usize> Monitor<K, D> for C03<K, D> {
         let Some(pre) = pre else { return };
         let Some(obj) = op.obj() else { return };
         let Some(base) = ctx.world.objs.get(obj).and_then(|o| o.as_ref()).cloned() else { return };
+        self.pre_clone = if obj == 0 { Some(base.clone()) } else { None };
 
         // (1) record mode
         let mut probe = base.clone();
@@ -239,8 +242,20 @@ impl<K: SimKernel<D>, const D: usize> Monitor<K, D> for C03<K, D> {
             && let (Some(pre), Some(dt)) = (pre, ctx.world.objs.get(obj).and_then(|o| o.as_ref()).cloned())
         {
             let faults = ctx.oprec.faults.clone();
-            check_unchanged(ctx, pre, &dt, out, &faults, "state-changed-on-failure");
+            let same = check_unchanged(ctx, pre, &dt, out, &faults, "state-changed-on-failure");
+            // "as if the failed call had never been made": the clone taken before the step never
+            // makes the call and lives on next to the object that did (from the next step on)
+            if same
+                && obj == 0
+                && self.twins.len() < self.max_twins + 1
+                && let Some(never) = self.pre_clone.take()
+            {
+                let fired = out.fired.first().map_or_else(|| format!("natural:{}", out.tag), |f| f.0.clone());
+                self.twins.push((never, ctx.step + 1, format!("{}@-@{}", fired, op.kind())));
+                ctx.stats.bump("c03.never_called_twins");
+            }
         }
+        self.pre_clone = None;
         // twins: apply the same op, compare outcome class and canonical state
         if obj != 0 {
             return;
